@@ -429,3 +429,6 @@ func c09GenCache(t *rapid.T) c09CacheCase {
 }
 
 func TestC09Cache(t *testing.T) { h.Run(t, c09GenCache, c09CheckCache) }
+
+// Native coverage-guided fuzzing of the same generator and oracle (thorough tier).
+func FuzzC09Cache(f *testing.F) { h.Fuzz(f, c09GenCache, c09CheckCache) }
